@@ -395,7 +395,10 @@ def run_case(chk, E, case, tmp):
             chk.impl_failure(cj, f"re-saved file differs: double-precision parameters {double_params} were narrowed to float32 by load",
                              finding="F21" if double_params else None)
         if kinds_of_diff & {"noise-shape", "noise-shape+narrowing"}:
-            chk.tag("resave_diff", "noise_std x -> [x] (DESIGN §5 remark)")
+            # the property says "saving the reloaded model reproduces the file": x vs [x] is a difference (finding F25)
+            chk.tag("resave_diff", "noise_std x -> [x]")
+            chk.impl_failure(cj, "re-saved file differs: scalar noise_std is written as a bare number after the fit and as a "
+                                 "one-element list after load", finding="F25")
     same_model_level = modelled_fields(j2) == modelled_fields(j1)
     again = modelled_fields(json.load(open(p3))) == modelled_fields(j2)
     ps2 = {}
